@@ -86,6 +86,55 @@ Proof.
 Qed.
 Print Assumptions C04_mode_slices.
 
+(* the layout functions of exponax/_spectral.py are re-translated from the source on every run (harness/translate/spectral.py ->
+   Gen/SpectralGen.v; a symbolic execution of the function bodies, callees inlined, fail-closed) and equal the hand-written layout
+   for every number of axes, grid size, cutoff, stored index and both indexing conventions *)
+From EXV Require Import Gen.SpectralGen Tie.SpectralTie.
+Theorem C04_code_layout_is_model_layout : forall (K : Ops) (xy : bool) (D : nat) (N cutoff : Z) (idx : list Z),
+  gen_wavenumber_shape D N = wavenumber_shape D N
+  /\ gen_spatial_shape D N = repeat N D
+  /\ (length (gen_space_indices D) = D /\ forall i, (i < D)%nat -> nth i (gen_space_indices D) 0%Z = (Z.of_nat i - Z.of_nat D)%Z)
+  /\ (forall c, (c < D)%nat -> gen_build_wavenumbers xy D N c idx = wavenumber xy D N c idx)
+  /\ gen_low_pass_filter_mask_axis xy D N cutoff idx = forallb (fun c => (Z.abs (wavenumber xy D N c idx) <=? cutoff)%Z) (seq 0 D)
+  /\ gen_low_pass_filter_mask_axis false D N cutoff idx = low_pass_axis D N cutoff idx
+  /\ gen_low_pass_filter_mask_radial false D N cutoff idx = low_pass_radial D N cutoff idx
+  /\ gen_oddball_filter_mask D N idx = oddball_mask D N idx.
+Proof.
+  intros K xy D N cutoff idx. splits.
+  - reflexivity.
+  - reflexivity.
+  - apply space_indices_tie.
+  - apply space_indices_tie.
+  - intros c Hc. apply wavenumbers_tie; exact Hc.
+  - apply low_pass_axis_tie_xy.
+  - apply low_pass_axis_tie.
+  - apply low_pass_radial_tie.
+  - apply oddball_tie.
+Qed.
+Print Assumptions C04_code_layout_is_model_layout.
+
+(* the scaling arrays of the source (all three modes): element * 2^(halvings of the model) = N^D, i.e. element = N^D / 2^halvings;
+   the mode slices of the source, read with Python's slice semantics on an axis of any length, are the model's index sets *)
+Theorem C04_code_scaling_and_slices_are_model : forall (F : FieldT) (D : nat) (N : Z) (idx : list Z) (mode : Z),
+  (mode = 10 \/ mode = 11 \/ mode = 12)%Z ->
+  omul (if (mode =? 10)%Z then gen_build_scaling_array_norm_compensation F false D N idx
+        else if (mode =? 11)%Z then gen_build_scaling_array_reconstruction F false D N idx
+        else gen_build_scaling_array_coef_extraction F false D N idx)
+       (fpow (fz 2) (Z.to_nat (scaling_halvings D N (fst (mode_denoms mode)) (snd (mode_denoms mode)) idx))) = fpow (fz N) D
+  /\ (forall len j : Z, (2 <= N)%Z -> (0 <= len)%Z ->
+        in_py_slice len (gen_modes_slice_left N) j = in_left N len j
+        /\ in_py_slice len (gen_modes_slice_right N) j = in_right N len j
+        /\ in_py_slice len (gen_modes_slice_last N) j = in_last N len j).
+Proof.
+  intros F D N idx mode Hm. split.
+  - apply scaling_modes_halvings; exact Hm.
+  - intros len j HN Hl. splits.
+    + apply modes_slice_left_tie; lia.
+    + apply modes_slice_right_tie; lia.
+    + apply modes_slice_last_tie; lia.
+Qed.
+Print Assumptions C04_code_scaling_and_slices_are_model.
+
 (* non-vacuity: i is a primitive 4th root of unity in the Gaussian rationals *)
 From EXV Require Import Base.Cplx.
 From Coq Require Import Qcanon.
